@@ -660,6 +660,175 @@ def render_export(x):
     return "\n".join(o) + "\n"
 
 
+# ---------------------------------------------------------------------------------------------
+# vita::replace_all (utility.cc): the body as a term of the statement language of Vita/C19/Replace.lean
+# ---------------------------------------------------------------------------------------------
+
+_STR_TYPES = ("std::string", "const std::string &", "const std::string", "std::basic_string<char>",
+              "const std::basic_string<char> &")
+
+
+def translate_replace():
+    """body of `std::string replace_all(std::string s, const std::string &from, const std::string &to)`
+       -> Lean term (RStm).  Parameters are numbered by position, local std::size_t variables by order of
+       declaration (so renaming is harmless); `size()` = `length()`; everything else that is not one of
+       find / replace / length / empty / npos / = / += / + / != / == / ! / if / while / return is refused."""
+    docs = ast_dump("replace_tu.cc", "vita::replace_all")
+    fn = _fn_with_body(docs, "replace_all")
+    params = [k for k in kids(fn) if k.get("kind") == "ParmVarDecl"]
+    if len(params) != 3:
+        raise Refuse("replace_all does not take three parameters")
+    for i, pm in enumerate(params):
+        t = pm.get("type", {}).get("qualType", "")
+        if t not in _STR_TYPES or (i == 0) != (not t.startswith("const")):
+            raise Refuse("replace_all: parameter %d has type %r (expected std::string by value, then two "
+                         "const std::string &)" % (i, t))
+    pidx = {pm["id"]: i for i, pm in enumerate(params)}
+    lidx = {}
+    used = {"calls": []}
+
+    def strip(n):
+        while True:
+            n = peel(n)
+            if n.get("kind") in ("ImplicitCastExpr", "CXXStaticCastExpr", "CXXFunctionalCastExpr") and \
+                    len(kids(n)) == 1 and n.get("castKind") in ("IntegralCast", "NoOp", "LValueToRValue"):
+                n = kids(n)[0]
+            else:
+                return n
+
+    def sparam(n):
+        n = strip(n)
+        if n.get("kind") == "DeclRefExpr" and n["referencedDecl"].get("id") in pidx:
+            return pidx[n["referencedDecl"]["id"]]
+        raise Refuse("replace_all: expected one of the three string parameters, found %s" % n.get("kind"))
+
+    def lvar(n):
+        n = strip(n)
+        if n.get("kind") == "DeclRefExpr" and n["referencedDecl"].get("id") in lidx:
+            return lidx[n["referencedDecl"]["id"]]
+        raise Refuse("replace_all: expected a local std::size_t variable, found %s" % n.get("kind"))
+
+    def member_call(n):
+        ks = kids(n)
+        m = ks[0]
+        if m.get("kind") != "MemberExpr":
+            raise Refuse("replace_all: member call without MemberExpr")
+        return m.get("name"), sparam(kids(m)[0]), ks[1:]
+
+    def exp(n):
+        n = strip(n)
+        k = n.get("kind")
+        if k == "IntegerLiteral":
+            return "(.lit %d)" % int(n["value"])
+        if k == "DeclRefExpr":
+            rd = n["referencedDecl"]
+            if rd.get("name") == "npos":
+                return ".npos"
+            if rd.get("id") in lidx:
+                return "(.var %d)" % lidx[rd["id"]]
+            raise Refuse("replace_all: reference to %r in an integer expression" % rd.get("name"))
+        if k == "CXXMemberCallExpr":
+            name, p, args = member_call(n)
+            args = [a for a in args if a.get("kind") != "CXXDefaultArgExpr"]
+            used["calls"].append(name)
+            if name in ("length", "size") and not args:
+                return "(.len %d)" % p
+            if name == "empty" and not args:
+                return "(.empty %d)" % p
+            if name == "find" and len(args) in (1, 2):
+                return "(.find %d %d %s)" % (p, sparam(args[0]), exp(args[1]) if len(args) == 2 else "(.lit 0)")
+            raise Refuse("replace_all: call of std::string::%s with %d arguments in an expression" % (name, len(args)))
+        if k == "UnaryOperator" and n.get("opcode") == "!":
+            return "(.not %s)" % exp(kids(n)[0])
+        if k == "BinaryOperator":
+            op = n.get("opcode")
+            a, b = kids(n)
+            if op == "=":
+                return "(.assign %d %s)" % (lvar(a), exp(b))
+            if op in ("!=", "==", "+"):
+                return "(.%s %s %s)" % ({"!=": "ne", "==": "eq", "+": "add"}[op], exp(a), exp(b))
+            raise Refuse("replace_all: binary operator %s" % op)
+        raise Refuse("replace_all: expression %s not understood" % k)
+
+    def seq(xs):
+        if not xs:
+            return ".skip"
+        if len(xs) == 1:
+            return xs[0]
+        return "(.seq %s %s)" % (xs[0], seq(xs[1:]))
+
+    def stm(n):
+        k = n.get("kind")
+        if k == "CompoundStmt":
+            return seq([stm(c) for c in kids(n) if not c.get("kind", "").endswith("Comment")])
+        if k == "NullStmt":
+            return ".skip"
+        if k == "DeclStmt":
+            out = []
+            for v in kids(n):
+                if v.get("kind") != "VarDecl" or v.get("type", {}).get("desugaredQualType",
+                                                                      v.get("type", {}).get("qualType")) not in \
+                        ("unsigned long", "std::size_t", "size_t") or not kids(v):
+                    raise Refuse("replace_all: local declaration that is not an initialised std::size_t")
+                lidx[v["id"]] = len(lidx)
+                out.append("(.decl %d %s)" % (lidx[v["id"]], exp(kids(v)[0])))
+            return seq(out)
+        if k == "IfStmt":
+            ks = kids(n)
+            if len(ks) not in (2, 3) or n.get("hasInit") or n.get("hasVar"):
+                raise Refuse("replace_all: if statement with an initialiser")
+            return "(.ite %s %s %s)" % (exp(ks[0]), stm(ks[1]), stm(ks[2]) if len(ks) == 3 else ".skip")
+        if k == "WhileStmt":
+            ks = kids(n)
+            if len(ks) != 2:
+                raise Refuse("replace_all: while statement with a condition variable")
+            return "(.while %s %s)" % (exp(ks[0]), stm(ks[1]))
+        if k == "ReturnStmt":
+            return "(.ret %d)" % sparam(kids(n)[0])
+        if k == "CompoundAssignOperator" and n.get("opcode") == "+=":
+            a, b = kids(n)
+            return "(.addAssign %d %s)" % (lvar(a), exp(b))
+        if k == "CXXMemberCallExpr":
+            name, p, args = member_call(n)
+            used["calls"].append(name)
+            if name == "replace" and len(args) == 3:
+                return "(.replace %d %s %s %d)" % (p, exp(args[0]), exp(args[1]), sparam(args[2]))
+            raise Refuse("replace_all: statement calls std::string::%s with %d arguments" % (name, len(args)))
+        if k in ("BinaryOperator", "UnaryOperator", "ParenExpr", "ImplicitCastExpr", "ExprWithCleanups"):
+            return "(.expr %s)" % exp(n)
+        raise Refuse("replace_all: statement %s not understood" % k)
+
+    body = [k for k in kids(fn) if k.get("kind") == "CompoundStmt"][0]
+    term = stm(body)
+    return {"term": term, "calls": sorted(set(used["calls"])), "locals": len(lidx)}
+
+
+def render_replace(x):
+    o = ["/- GENERATED by tools/translate_templates.py from the clang AST of vita::replace_all",
+         "   (src/utility/utility.cc).  Do not edit: regenerated (and re-proved equal to the hand-read loop,",
+         "   Vita.C19.canonReplaceAll) on every run of checks/c19.py. -/",
+         "import Vita.C19.Replace",
+         "namespace Vita.C19.Gen",
+         "open Vita.C19",
+         "",
+         "/-- parameters: 0 = s (by value), 1 = from, 2 = to; locals numbered in order of declaration -/",
+         "def replaceAllBody : RStm :=",
+         "  " + x["term"],
+         "",
+         "end Vita.C19.Gen"]
+    return "\n".join(o) + "\n"
+
+
+def emit_replace(path):
+    x = translate_replace()
+    txt = render_replace(x)
+    old = open(path).read() if os.path.exists(path) else None
+    if old != txt:
+        with open(path, "w") as f:
+            f.write(txt)
+    return x, old is not None and old != txt
+
+
 def emit_export(path):
     x = translate_export()
     txt = render_export(x)
@@ -683,6 +852,8 @@ def emit(path):
 if __name__ == "__main__":
     if sys.argv[1:] == ["export"]:
         sys.stdout.write(render_export(translate_export()))
+    elif sys.argv[1:] == ["replace"]:
+        sys.stdout.write(render_replace(translate_replace()))
     else:
         fs, ts = translate()
         sys.stdout.write(render(fs, ts))
